@@ -1006,6 +1006,16 @@ where
         if self.pid_man.is_used_id(packet_id) {
             self.pid_man.release_id(packet_id);
             events.push(GenericEvent::NotifyPacketIdReleased(packet_id));
+            // The exchange the identifier was obtained for is abandoned with it (typically a
+            // failed send): nothing may still wait for its acknowledgement, or a later
+            // acknowledgement / close would release the identifier again under a new owner
+            self.pid_suback.remove(&packet_id);
+            self.pid_unsuback.remove(&packet_id);
+            let awaited =
+                self.pid_puback.remove(&packet_id) | self.pid_pubrec.remove(&packet_id);
+            if awaited && self.publish_send_max.is_some() && self.publish_send_count > 0 {
+                self.publish_send_count -= 1;
+            }
         }
 
         events
